@@ -406,10 +406,10 @@ func init() {
 		ID:  "C15",
 		New: func() any { return &SCase{} },
 		Gen: func(t *rapid.T) any {
-			// one case in 160 (thorough: in 24): a single commit of more than 2^16 pending slabs
+			// one case in 160 (thorough: in 48): a single commit of more than 2^16 pending slabs
 			wideEvery := 160
 			if thorough() {
-				wideEvery = 24
+				wideEvery = 48
 			}
 			if rapid.IntRange(0, wideEvery-1).Draw(t, "wide?") == wideEvery/2+3 { // (rapid favours small and boundary values: the selector avoids them)
 				w := rapid.SampledFrom([]int{1<<16 - 1, 1 << 16, 1<<16 + 1, 1<<16 + 2, 1<<16 + 4097, 1<<17 + 1}).Draw(t, "wide")
